@@ -299,11 +299,11 @@ Section C06.
      exists l, so_link s = Some l /\ st' = put sk st (skey sk l) (concat chunks)).
   Proof.
     intros C E M. unfold LinkSys.store, LinkSys.compute. rewrite C, E.
-    destruct (negb (hasher_ok _)); [intros X [S|S]; inversion X; subst; cbn in S; discriminate|].
-    destruct (w_open_err w); [intros X [S|S]; inversion X; subst; cbn in S; discriminate|].
+    destruct (negb (hasher_ok _)); [intros X [S|S]; inversion X; subst; cbn in S; try discriminate; unfold wfail_class in S; destruct (first_short _ _ _ _); discriminate|].
+    destruct (w_open_err w); [intros X [S|S]; inversion X; subst; cbn in S; try discriminate; unfold wfail_class in S; destruct (first_short _ _ _ _); discriminate|].
     destruct (write_all _ _ _ _ _ _ _ _) as [[[wr hs] ee] la] eqn:W.
-    destruct ee; [intros X [S|S]; inversion X; subst; cbn in S; discriminate|]. cbn [orb].
-    destruct (latch && la) eqn:L; [intros X [S|S]; inversion X; subst; cbn in S; discriminate|].
+    destruct ee; [intros X [S|S]; inversion X; subst; cbn in S; try discriminate; unfold wfail_class in S; destruct (first_short _ _ _ _); discriminate|]. cbn [orb].
+    destruct (latch && la) eqn:L; [intros X [S|S]; inversion X; subst; cbn in S; try discriminate; unfold wfail_class in S; destruct (first_short _ _ _ _); discriminate|].
     destruct (write_all_clean _ _ _ _ _ _ _ _ _ _ M W L) as [-> ->].
     destruct (build_link _ _) as [l|]; [|intros X [S|S]; inversion X; subst; discriminate].
     destruct (w_commit_err w); intros X S; inversion X; subst; cbn; repeat split; auto.
